@@ -1199,6 +1199,10 @@ class Interp:
         self.inv_phase = "check"
         try:
             goals = spec.inv(self, env, k, pre, it)
+        except KeyError as e:
+            # the sidecar invariant names a variable this loop does not have (the code's loop structure is not the one the
+            # invariant was written for): nothing is decided about this function
+            raise Undecided(f"loop invariant of {key} does not fit the loop: no variable {e}")
         finally:
             self.inv_phase = "assume"
         for label, goal in goals:
